@@ -40,7 +40,7 @@ Ops ==
                           s \in (-1)..Len(y), t \in ((-2)..(Len(y) + 1)) \cup {NB}, st \in {1, 2, -1, -2}}
       [] Family = "interp" ->
             {[k |-> "interp", q2 |-> q, left |-> lf] :
-                 q \in {[i \in 1..3 |-> a + (i - 1) * d] : a \in Around, d \in {0, 1, 3}} \cup {x2}, lf \in {NB, 7}}
+                 q \in {[i \in 1..3 |-> a + (i - 1) * d] : a \in Around, d \in {0, 1, 3}} \cup {x2}, lf \in {NB, 7, 0}}
             \cup {[k |-> "winterp", n |-> n] : n \in 2..6}
             \cup {[k |-> "wgrid", q2 |-> q] : q \in {x2, <<x2[1], x2[Len(x2)]>>, <<x2[1], x2[1] + 1, x2[Len(x2)]>>,
                                                      <<x2[1] + 1, x2[Len(x2)]>>, <<x2[1], x2[Len(x2)] + 1>>}}
